@@ -253,7 +253,7 @@ func (r *runner) logsHead() pathT {
 }
 
 func (r *runner) quals() [][]any {
-	var out [][]any
+	out := [][]any{}
 	for _, blk := range r.w.stream {
 		if q, ok := r.node.BFT.VerifStoredQuality(blk.Header().ID()); ok {
 			out = append(out, []any{r.w.p(blk.Header().ID()), q})
